@@ -1,6 +1,6 @@
 (* C07 property theorems. This file contains only statements closed by
    [exact lemma] and Print Assumptions. *)
-From V Require Import Common.Base Common.Utf8 C07.LineCol C07.Builder C07.BuilderProofs C07.LineColAux C07.LineColProofs C07.Shift C07.ShiftAux C07.ShiftProofs C07.Vlq C07.SpecMap C07.Mappings C07.VlqProofs C07.MappingsProofs C07.FindProofs C07.JoinProofs.
+From V Require Import Common.Base Common.Utf8 C07.LineCol C07.Builder C07.BuilderProofs C07.LineColAux C07.LineColProofs C07.Shift C07.ShiftAux C07.ShiftProofs C07.Vlq C07.SpecMap C07.Mappings C07.VlqProofs C07.MappingsProofs C07.FindProofs C07.JoinProofs C07.SpecBuilder C07.BuilderExact.
 
 (* encodeVLQ/DecodeVLQ round trip, every integer, arbitrary trailing bytes *)
 Theorem vlq_roundtrip : forall v rest, DecodeVLQ (encodeVLQ v ++ rest) = Some (v, rest).
@@ -89,3 +89,32 @@ Theorem finalize_moves_columns : forall sh ops, shifts_wf sh -> ops_wf ops ->
     spec_decode result = Some (map (shift_abs sh) (abs_of ops 0)).
 Proof. exact finalize_decodes_map. Qed.
 Print Assumptions finalize_moves_columns.
+
+(* What the mappings of a ChunkBuilder chunk ARE: for every original text, every
+   sequence of AddSourceMapping(loc, name, output) calls with loc at a character
+   boundary of the text, any output text, with or without
+   coverLinesWithoutMappings: the builder does not panic and the chunk returned
+   by GenerateChunk is byte for byte the v3 encoding of the event list of
+   SpecBuilder.v, i.e. in order, for every call not suppressed as a duplicate,
+   one mapping
+     (generated line, generated UTF-16 column of the end of the output printed
+      so far)  |->  (source 0, linecol_utf16 text loc, index of the name)
+   plus (cover on, a previous mapping exists) its copy at column 0 of every
+   generated line left without a mapping and of the line of a mapping that is
+   not at column 0 on a line without mapping.  The name table, first-name
+   offset, end state and final generated column are the specified ones and the
+   events are sorted within each line (what Finalize and the joiner rely on).
+   Combines the Builder.v model with lineoffset_table_is_spec. *)
+Theorem builder_mappings_exact : forall text cover evs fin,
+  Forall (fun e => boundary text (fst (fst e))) evs ->
+  exists b, run_builder (GenerateLineOffsetTables text) (bst0 cover) evs = Some b /\
+    let '(data, fno, names, endst, fcol, _) := GenerateChunk b fin in
+    let '(ops, snames, scol) := builder_spec text cover evs fin in
+    data = emit_bytes ops /\
+    spec_decode data = Some (abs_of ops 0) /\
+    fno = option_map Z.of_nat (first_name_off ops 0 state0 0) /\
+    names = snames /\ fcol = scol /\
+    endst = snd (emit ops 0 state0) /\
+    sorted_ops ops 0.
+Proof. exact builder_exact_all. Qed.
+Print Assumptions builder_mappings_exact.
